@@ -1,5 +1,6 @@
 import VD.Val
 import VM.Prog
+import VM.FlagThm
 /-! Line-protocol driver for programs (slices V and B).  Protocol: DESIGN.md appendix A.2 (extended).
 
     M <id> <ndefs> <top> <nargs> value^nargs
@@ -8,7 +9,7 @@ import VM.Prog
     G <callee> <na> arg^na (0 | 1 arg)
     R <n|s|t|l|d> <k> (<key>? arg)^k                           closes the definition
     E
-    -> <id> plain OK <value> | ERR ;  <id> model OK <value> | ERR ;  <id> table … (one line per node)
+    -> <id> plain OK <value> | ERR ;  <id> model OK <value> | ERR ;  <id> flagsafe T|F (VM.flagSafeB) ;  <id> table … (one line per node)
 -/
 open VM VD
 
@@ -163,6 +164,7 @@ def main : IO Unit := do
       let model := runTop interp defs topI args
       IO.println s!"{mid} plain {renderRes nr plain}"
       IO.println s!"{mid} model {renderRes nr model}"
+      IO.println s!"{mid} flagsafe {if flagSafeB defs then "T" else "F"}"
       match traceTop defs topI args with
       | .error _ => IO.println s!"{mid} table ERR"
       | .ok (st, rets) =>
